@@ -612,9 +612,14 @@ func (m *Model) Pull(name string, max int, now time.Time, resp []*pubsubpb.Recei
 		d := byAck[rm.AckId]
 		if d == nil {
 			// first delivery: bind by message id among never-delivered deliveries
+			// (a message can have several deliveries here - dead-letter forwards -
+			// so prefer one that may be delivered now, then the earliest)
 			for _, c := range s.Dels {
 				if c.AckID == "" && c.Msg.ID == rm.Message.GetMessageId() && !got[c] {
-					if d == nil || c.Pub.Before(d.Pub) {
+					better := d == nil ||
+						(cl[d].c == clMustNot && cl[c].c != clMustNot) ||
+						((cl[d].c == clMustNot) == (cl[c].c == clMustNot) && c.Pub.Before(d.Pub))
+					if better {
 						d = c
 					}
 				}
@@ -639,6 +644,10 @@ func (m *Model) Pull(name string, max int, now time.Time, resp []*pubsubpb.Recei
 					}
 				}
 				sig["other_key_between"] = between
+				// the implementation orders by a link to the *previous* same-key
+				// delivery only; after a rewinding seek an older, revived message
+				// is not waited for (known finding F12)
+				sig["revived_predecessor"] = by != nil && by.Seek
 				viols = append(viols, Viol{Prop: c.prop, Rule: "must-not/" + c.reason, Sig: sig, Detail: fmt.Sprintf("Pull(%s) at +%v returned message #%d (key %q) while earlier message #%d with the same key is still outstanding (attempts %d, state %s)", name, now.Sub(epoch), d.Msg.Idx, d.Msg.Spec.Key, by.Msg.Idx, by.N, by.State)})
 			} else {
 				var also []string
